@@ -17,7 +17,10 @@ package main
 // The harness is single-threaded: an "interleaving" is the position at which a
 // callback runs.
 //
-// Input  ((bs old cur new mut pb) ops)      pb must be 2
+// Input  ((bs old cur new mut pb [init]) ops)      pb must be 2; init = initialBlocksCount
+// (absent: 0): the map is constructed with that count and the block list is
+// given that many blocks (each with its probes) before the first operation -
+// what a restored persistent block list looks like to the blob map.
 //   (0 sz hooks) Put   (1 k bad) obtain reader   (2 r) finish reader   (3 w) finalizer
 // Observation: see coq/Run/R08Q.v.
 
@@ -234,10 +237,17 @@ func c08qAtoms(s Sx, n int) bool {
 }
 
 func (c08q) Exec(in Sx) (Sx, bool) {
-	if in.IsAtom || in.Len() != 2 || !c08qAtoms(in.Nth(0), 6) || in.Nth(1).IsAtom || in.Nth(1).Len() > c08qMaxOps {
+	if in.IsAtom || in.Len() != 2 || !(c08qAtoms(in.Nth(0), 6) || c08qAtoms(in.Nth(0), 7)) || in.Nth(1).IsAtom || in.Nth(1).Len() > c08qMaxOps {
 		return Sx{}, false
 	}
 	cfg := in.Nth(0)
+	initial := 0
+	if cfg.Len() == 7 {
+		if cfg.Nth(6).Z < 0 || cfg.Nth(6).Z > 24 {
+			return Sx{}, false
+		}
+		initial = cfg.Nth(6).Int()
+	}
 	bs, old, cur, nw, mut, pb := cfg.Nth(0).Int(), cfg.Nth(1).Int(), cfg.Nth(2).Int(), cfg.Nth(3).Int(), cfg.Nth(4).Z, cfg.Nth(5).Int()
 	if bs < 4 || bs > 64 || old < 0 || old > 4 || cur < 0 || cur > 4 || nw < 1 || nw > 4 || mut < 0 || mut > 1 || pb != 2 {
 		return Sx{}, false
@@ -291,9 +301,16 @@ func (c08q) Exec(in Sx) (Sx, bool) {
 	} else {
 		policy = local.NewImmutableBlockListGrowthPolicy(cur, nw)
 	}
-	w.lbm = local.NewOldCurrentNewLocationBlobMap(&c08qBlockList{BlockList: w.real, w: w}, policy, w.logger, c08qLabel, int64(bs), old, nw, 0)
+	wbl := &c08qBlockList{BlockList: w.real, w: w}
+	w.lbm = local.NewOldCurrentNewLocationBlobMap(wbl, policy, w.logger, c08qLabel, int64(bs), old, nw, initial)
 	const tableSize = 9973
 	w.klm = local.NewHashingKeyLocationMap(local.NewInMemoryLocationRecordArray(tableSize, w.lbm), tableSize, 0x1234567, 16, 64, c08qLabel)
+	// the restored blocks (the constructor only counts them)
+	for j := 0; j < initial; j++ {
+		if err := wbl.PushBack(); err != nil {
+			return Sx{}, false
+		}
+	}
 
 	obs := []Sx{}
 	dead := false
@@ -386,6 +403,17 @@ func (c08q) Gen(r *Rand, i int, tier string) Sx {
 	}
 	fill := bs - 2
 	capacity := old + cur + nw
+	// initialBlocksCount: mostly 0; else below, at and above the configured capacity
+	initial := 0
+	if r.Chance(25) {
+		initial = r.Intn(capacity + 4)
+	}
+	cfgSx := func() Sx {
+		if initial == 0 {
+			return L(AI(bs), AI(old), AI(cur), AI(nw), AI(mut), AI(2))
+		}
+		return L(AI(bs), AI(old), AI(cur), AI(nw), AI(mut), AI(2), AI(initial))
+	}
 	ops := []Sx{}
 	nreaders, nputs := 0, 0
 	put := func(sz int, hooks ...[]int) {
@@ -420,13 +448,17 @@ func (c08q) Gen(r *Rand, i int, tier string) Sx {
 				ops = append(ops, L(AI(3), AI(r.Intn(nputs+2))))
 			}
 		}
-		return L(L(AI(bs), AI(old), AI(cur), AI(nw), AI(mut), AI(2)), L(ops...))
+		return L(cfgSx(), L(ops...))
 	}
 	// structured: reach the steady state, then rounds of
 	// readers obtained -> a Put with the detections spread over its block-list calls
 	warm := capacity + r.Intn(3)
 	if r.Chance(15) {
 		warm = r.Intn(capacity + 1)
+	}
+	if initial > 0 && r.Chance(70) {
+		// restored blocks: sometimes straight to the readers, sometimes a short warm-up
+		warm = r.Intn(3)
 	}
 	for j := 0; j < warm; j++ {
 		put(fill)
@@ -487,7 +519,7 @@ func (c08q) Gen(r *Rand, i int, tier string) Sx {
 			ops = append(ops, L(AI(3), AI(r.Intn(nputs))))
 		}
 	}
-	return L(L(AI(bs), AI(old), AI(cur), AI(nw), AI(mut), AI(2)), L(ops...))
+	return L(cfgSx(), L(ops...))
 }
 
 // Class: where detections landed.
